@@ -2,6 +2,7 @@ import HawkModel.GcLemmas
 import HawkModel.GcGen
 import HawkModel.GcCallLemmas
 import HawkModel.Gen.GcConst
+import HawkModel.GcValLemmas
 /-!
 # C07 — values live exactly as long as they are reachable
 
@@ -436,6 +437,68 @@ theorem consts_match_source :
     GCH_MOVED = Gen.gchMoved ∧ GCH_UNREACHABLE = Gen.gchUnreachable ∧ TMP = Gen.numGens ∧
     ({} : St).t0 = Gen.thr0 ∧ ({} : St).t1 = Gen.thr1 ∧ ({} : St).t2 = Gen.thr2 ∧
     ({} : St).p0 = 0 ∧ ({} : St).p1 = 0 ∧ ({} : St).p2 = 0 ∧ ({} : St).p3 = 0 := by decide
+
+/-! ### both element freeers on an element that survived a collection (class of seed C07-r5s1) -/
+
+/-- **an element carrying `GCH_MOVED` is still refdown'ed when it leaves its container**: the freeer's skip test is
+for `GCH_UNREACHABLE` only.  The model's `unlink` (→ `cascade`) is the one transcription of the twins `free_mapval`
+and `free_arrval`; the harness drives every history with maps and with arrays as holders and as elements (all
+exhaustive prefixes in both kinds and mixed), so a twin that deviates (`>=` instead of `==`) differs from this. -/
+theorem moved_element_refdown (ops : List Op) (p c : Id) (op oc : Obj) (hp : (run ops).heap.get p = some op)
+    (hmem : c ∈ op.children) (hne : p ≠ c) (hc : (run ops).heap.get c = some oc) (hm : oc.gcRefs = GCH_MOVED) :
+    (run (ops ++ [.unlink p c])).heap.get c = if oc.refs = 1 then none else some { oc with refs := oc.refs - 1 } := by
+  rw [run_snoc]
+  simp only [step, unlink, hp, hmem, if_true, Option.getD_some]
+  have hc' : Heap.get ((run ops).heap.set p (some { op with children := op.children.erase c })) c = some oc := by
+    rw [Heap.get_set_ne _ _ _ _ hne]; exact hc
+  rw [cascade_cons_some _ c [] oc hc']
+  have hU : ¬ oc.gcRefs = GCH_UNREACHABLE := by rw [hm]; decide
+  have hpos := (acyclic_immediate ops c oc hc).1
+  have h0 : ¬ oc.refs = 0 := by omega
+  rw [if_neg hU, if_neg h0]
+  have hlt : c < ((run ops).heap.set p (some { op with children := op.children.erase c })).length := by
+    simp; exact Heap.get_lt hc
+  by_cases h1 : oc.refs = 1
+  · rw [if_pos h1, if_pos h1]
+    cases hr : (cascade { run ops with heap := ((run ops).heap.set p (some { op with children := op.children.erase c })).set c none }
+        (oc.children ++ [])).heap.get c with
+    | none => rfl
+    | some o' =>
+      obtain ⟨o0, ho0, _⟩ := cascade_get _ _ c o' hr
+      simp only at ho0
+      rw [Heap.get_set_eq _ _ _ hlt] at ho0
+      cases ho0
+  · rw [if_neg h1, if_neg h1, cascade_nil]
+    exact Heap.get_set_eq _ _ _ hlt
+
+/-- the hypotheses are satisfiable: an element that survived `gc 0` inside a container carries `GCH_MOVED` -/
+example : ∃ oc, (run ([.alloc, .alloc, .link 1 0] ++ [.gc ((0 : Nat) : Int)])).heap.get 0 = some oc ∧ oc.gcRefs = GCH_MOVED := by
+  have hl := (collect_keeps_reachable [.alloc, .alloc, .link 1 0] 0 0 (Reach.root (by decide))).1
+  obtain ⟨oc, hoc⟩ := Option.isSome_iff_exists.mp hl
+  obtain ⟨_, _, hm, _⟩ := promotion [.alloc, .alloc, .link 1 0] 0 (by omega) 0 oc hoc
+  exact ⟨oc, hoc, hm⟩
+
+/-! ### leaf values: the host blocks behind boxed numbers and strings (model: HawkModel/GcVal.lean) -/
+
+/-- **cache blocks + live blocks + chunk (free-list) blocks = blocks obtained from the host** after every history of
+leaf-value operations; every slot of every chunk is in use or on its free list -/
+theorem blocks_accounting (ops : List VOp) :
+    (vrun ops).host = (vrun ops).ichunks + (vrun ops).fchunks + (vrun ops).slive + (vrun ops).scache.sum ∧
+    (vrun ops).ilive + (vrun ops).ifree = CHUNKSIZE * (vrun ops).ichunks ∧
+    (vrun ops).flive + (vrun ops).ffree = CHUNKSIZE * (vrun ops).fchunks ∧
+    (vrun ops).slive = leafCount isStr (vrun ops).tab :=
+  ⟨(vinv_run ops).blocks, (vinv_run ops).ints, (vinv_run ops).flts, (vinv_run ops).scnt⟩
+
+/-- **close returns all of them**: once the host has released its strings, `fini_rtx` (cache emptied, chunks freed
+— whatever is still on or off the free lists) leaves no block of the leaf allocators with the runtime -/
+theorem close_returns_leaf_blocks (ops : List VOp) (h : (vrun ops).slive = 0) : (flush (vrun ops)).host = 0 := by
+  have hb := (vinv_run ops).blocks
+  show (vrun ops).host - (vrun ops).scache.sum - (vrun ops).ichunks - (vrun ops).fchunks = 0
+  omega
+
+/-- non-vacuity: a history that obtains a chunk and a string block, caches the string, and has no string in use -/
+example : (vrun [.int, .str 5, .rel 1]).slive = 0 ∧ (vrun [.int, .str 5, .rel 1]).host = 2 ∧
+    (vrun [.int, .str 5, .rel 1]).scache.sum = 1 := by decide
 
 /-! ### non-vacuity of the round-5 theorems -/
 
